@@ -1207,6 +1207,9 @@ impl Session {
         lines.extend(alines);
         if let Some(t) = verif::transfer_stats(world) {
             lines.push(format!("XFER {} active={} queued={} toapply={}", p, t.downloads_active, t.downloads_queued, t.meshes_to_apply + t.images_to_apply + t.audios_to_apply));
+            // downloads requested and not yet applied: kind:asset:under-way
+            let pend: Vec<String> = t.pending.iter().map(|(c, id, n)| format!("{}:{}:{}", c + 1, self.ah(id), n)).collect();
+            lines.push(format!("PEND {} {}", p, if pend.is_empty() { "-".to_string() } else { pend.join(",") }));
         }
         for l in lines {
             writeln!(self.out, "{}", l).unwrap();
